@@ -177,6 +177,9 @@ Proof.
   - cbn [nth_error] in H. cbn [firstn skipn app]. f_equal. apply IH, H.
 Qed.
 
+Lemma skipn_S_app {A} (a : list A) x b : skipn (S (length a)) (a ++ x :: b) = b.
+Proof. induction a as [|y a IH]; [reflexivity|exact IH]. Qed.
+
 Lemma form2_spec fs k g :
   form2_6 fs k = Some g <->
   exists L R, Forall hexgroup L /\ Forall hexgroup R /\ (length L + length R <= 7)%nat /\
@@ -196,14 +199,9 @@ Proof.
       apply Nat.lt_le_incl, nth_error_Some. congruence.
   - intros (L & R & GL & GR & H7 & -> & -> & ->).
     rewrite nth_error_app2 by lia. rewrite Nat.sub_diag. cbn [nth_error].
-    rewrite firstn_app, Nat.sub_diag, firstn_all. cbn [firstn]. rewrite app_nil_r.
+    rewrite firstn_app_exact, skipn_S_app.
     replace (side6 (side L)) with (Some (map hexval L))
       by (symmetry; apply side6_spec; eauto).
-    change (S (length (side L))) with (length (side L ++ [[]])%list + 0)%nat at 1.
-    replace (drop (S (length (side L))) (side L ++ [] :: side R)) with (side R).
-    2:{ change (side L ++ [] :: side R) with (side L ++ [[]] ++ side R). rewrite app_assoc.
-        replace (S (length (side L))) with (length (side L ++ [[]])) by (rewrite app_length; cbn; lia).
-        rewrite drop_app. reflexivity. }
     replace (side6 (side R)) with (Some (map hexval R))
       by (symmetry; apply side6_spec; eauto).
     rewrite !map_length. replace (length L + length R <=? 7)%nat with true by lia. reflexivity.
@@ -249,7 +247,9 @@ Proof.
       try discriminate.
     intros HG. rewrite (forallb_Forall _ hexgroup) in HG by apply hexgroupb_spec.
     exists [a; b; c; d; e; f; g]. repeat split; [assumption|].
-    rewrite <- (join_split 58 s), Es. reflexivity.
+    rewrite <- (join_split 58 s), Es.
+    change [a; b; c; d; e; f; g; []; []] with ([a; b; c; d; e; f; g] ++ [[]; []]).
+    rewrite join_right by discriminate. reflexivity.
   - intros (L & H7 & GL & ->).
     pose proof (split_compressed L [] GL ltac:(constructor)) as H.
     cbn [join] in H. rewrite app_nil_r in H. rewrite H.
